@@ -434,6 +434,9 @@ pub fn run(args: &Args) {
     if !thorough {
         plans.push(("small", (0..=8).collect(), 3, Menu::All, None));
         plans.push(("large", vec![255, 256, 257, 300, 511, 512, 513, 600, 1025], 2, Menu::Reduced, Some(2)));
+        // three operations are needed to consume the adapter's own storage exactly and then ask for
+        // more than its capacity (seed C27b): depth 3 on three lengths, one short read
+        plans.push(("large", vec![300, 600, 1025], 3, Menu::Reduced, Some(1)));
     } else {
         plans.push(("small", (0..=10).collect(), 4, Menu::All, None));
         plans.push(("small", vec![11, 12], 4, Menu::All, Some(3)));
